@@ -105,6 +105,15 @@ def _scalar_binop(op, a, b):
         return sa // b
     if op == 'Mod':
         return sa % b
+    if op in ('BitOr', 'BitAnd', 'BitXor'):
+        tags = (_I().type_tag(a), _I().type_tag(b))
+        if all(t == 'bool' for t in tags):
+            x, y = to_bool(a) if not isinstance(a, bool) else Sym.lift(a), to_bool(b) if not isinstance(b, bool) else Sym.lift(b)
+            if op == 'BitOr':
+                return Or(x, y)
+            if op == 'BitAnd':
+                return And(x, y)
+            return Or(And(x, Not(y)), And(Not(x), y))
     raise Unsupported(f"symbolic op {op}")
 
 
@@ -1132,6 +1141,14 @@ def _astype(interp, a, dtype):
     if name in ('int', 'int64', 'int32'):
         if a.dtype == 'complex':
             raise Unsupported("complex -> int cast")
+        if getattr(interp.vc, 'check_int_overflow', False) and a.dtype not in ('int', 'bool'):
+            # safety obligation (opt-in per contract): a float -> int64 cast is only defined for values inside the int64 range;
+            # outside it numpy returns INT64_MIN.  Checked at a generic position of the array.
+            idx = tuple(CTX.fresh('cast_at', 'int') for _ in range(a.ndim))
+            inr = And(*[And(k >= 0, k < d) for k, d in zip(idx, a.shape)]) if a.ndim else True
+            v = a.at(idx)
+            key = interp.call_stack[-1] if getattr(interp, 'call_stack', None) else '?'
+            interp.vc.ensure(f"{key}/astype(int)/value-inside-the-int64-range", Implies(inr, And(v > -2 ** 63, v < 2 ** 63)), kind='safety')
         return A.elementwise1(a, to_int, 'int')
     if name == 'int8':
         # numpy wraps modulo 256 for int->int8; float->int8 out of range is undefined: obligation
@@ -1660,7 +1677,28 @@ def _all_any(is_all):
         flat = A.reshape(a, (a.size(),)) if a.ndim != 1 else a
         n = conc_int(flat.shape[0])
         if n is None or n > 64:
-            raise Unsupported("np.all/any over a symbolic-length array")
+            # quantified result over a symbolic-length array: a fresh boolean B with
+            #   all:  B -> p(k) for every k in range (instantiated at 0, n-1, at every index symbol the interpreter introduces later and
+            #         at the indices a contract names with vc.instantiate), not B -> not p(w) for a witness w in range, n == 0 -> B
+            #   any:  dual
+            N = flat.shape[0]
+            snap = flat._snapshot()
+            pk = lambda k_: (lambda v: to_bool(v) if not isinstance(v, bool) else Sym.lift(v))(snap((k_,)))
+            B = CTX.fresh('all' if is_all else 'any', 'bool')
+            w = CTX.fresh('witness', 'int')
+            inr = lambda k_: And(Sym.lift(k_) >= 0, Sym.lift(k_) < N)
+            if is_all:
+                CTX.side.append(And(Implies(Not(B), And(inr(w), Not(pk(w)))), Implies(eq(N, 0), B)).t)
+                gen = lambda k_: Implies(And(B, inr(k_)), pk(k_))
+            else:
+                CTX.side.append(And(Implies(B, And(inr(w), pk(w))), Implies(eq(N, 0), Not(B))).t)
+                gen = lambda k_: Implies(And(Not(B), inr(k_)), Not(pk(k_)))
+            interp.vc.foralls.append(gen)
+            interp.vc.assume(gen(0))
+            interp.vc.assume(gen(N - 1))
+            for k_ in getattr(interp.vc, 'probe_indices', ()):
+                interp.vc.assume(gen(k_))
+            return B
         vals = [to_bool(flat.at((q,))) if not isinstance(flat.at((q,)), bool) else flat.at((q,)) for q in range(n)]
         return And(*vals) if is_all else Or(*vals)
     return f
